@@ -156,6 +156,40 @@ func RunDiff(db objects.Store, t1, t2 *Built) ([]RealEvent, error) {
 	return evs, nil
 }
 
+// ReadBackModified resolves every "modified" event the way the interactive diff table does (RowChangeReader.ReadAt,
+// random access) and requires the pair (new row, old row) that the event's offsets address: "each event's
+// offsets address the right rows" for the reader of the events as well.
+func ReadBackModified(db objects.Store, t1, t2 *Built, evs []RealEvent) (string, map[string]interface{}) {
+	cd := wdiff.CompareColumns([2][]string{t2.Tbl.Columns, t2.Tbl.PrimaryKey()}, [2][]string{t1.Tbl.Columns, t1.Tbl.PrimaryKey()})
+	rd, err := wdiff.NewRowChangeReader(db, db, t1.Tbl, t2.Tbl, cd)
+	if err != nil {
+		return "reader-error", map[string]interface{}{"error": err.Error()}
+	}
+	var mods []RealEvent
+	for _, e := range evs {
+		if e.HasSum && e.HasOldSum {
+			mods = append(mods, e)
+			rd.AddRowDiff(&objects.Diff{PK: e.PK, Sum: e.PK, OldSum: e.PK, Offset: e.Off, OldOffset: e.OldOff})
+		}
+	}
+	// last to first: ReadAt is random access
+	for i := len(mods) - 1; i >= 0; i-- {
+		e := mods[i]
+		if int(e.Off) >= len(t1.Rows) || int(e.OldOff) >= len(t2.Rows) {
+			continue // judged by the comparison of the events
+		}
+		got, err := rd.ReadAt(i)
+		if err != nil {
+			return "read-error", map[string]interface{}{"error": err.Error(), "offset": e.Off, "old_offset": e.OldOff}
+		}
+		want := cd.CombineRows(0, t1.Rows[e.Off], t2.Rows[e.OldOff])
+		if fmt.Sprint(got) != fmt.Sprint(want) {
+			return "wrong-rows", map[string]interface{}{"offset": e.Off, "old_offset": e.OldOff, "observed": got, "expected": want}
+		}
+	}
+	return "", nil
+}
+
 // waitDiffGoroutine returns once no goroutine of wrgl's pkg/diff is left.  The
 // goroutine started by DiffTables closes the event channel in a deferred call,
 // i.e. ALSO while it is unwinding a panic: the channel is closed first and the
